@@ -254,9 +254,21 @@ def step {σ : Type} (closing : Bool) (dp : Delegate) (F : FS σ) (w : WState σ
 
 namespace Sub
 
-/-- `SubFS.delegate_path`: `join(self._sub_dir, relpath(normpath(path)))`
-(= `Confine.subDelegate`, whose confinement is proved in `FsProofs/C03`) -/
-def delegate (subDir : Str) : Delegate := Confine.subDelegate subDir
+/-- `SubFS.delegate_path` (as repaired in /repo 6fe32c8):
+
+    invalid_chars = self._wrap_fs.getmeta().get("invalid_path_chars")
+    if invalid_chars and set(path).intersection(invalid_chars): raise errors.InvalidCharsInPath(path)
+    _path = join(self._sub_dir, relpath(normpath(path)))
+
+`invalid` is what the PARENT declares; the second line is `Confine.subDelegate`, whose confinement is
+proved in `FsProofs/C03`.  (`getmeta()` of a parent that is itself a CLOSED wrapper raises
+FilesystemClosed here rather than in the inner call: same class, not modelled separately.) -/
+def delegateWith (invalid : List Char) (subDir : Str) : Delegate := fun p =>
+  if p.any (fun c => invalid.contains c) then .err .InvalidCharsInPath
+  else Confine.subDelegate subDir p
+
+/-- over MemoryFS / OSFS (and over another SubFS of them): `invalid_path_chars = "\0"` -/
+def delegate (subDir : Str) : Delegate := delegateWith ['\x00'] subDir
 
 /-- an open `SubFS` whose `_sub_dir` is `subDir`, over `F` -/
 def stepOpen {σ : Type} (subDir : Str) (F : FS σ) : FS σ := Wrap.stepOpen (delegate subDir) F
